@@ -22,7 +22,7 @@ ASSUMPTIONS = [
     "alpha_n, psi_n 1e-3; cs^2, cb^2 3e-3 (second derivative of a cubic spline with dT = Tscale*tol^(1/4)); widths*Tn, offsets and field profiles 5e-3 (10x the largest spread between equivalent runs observed on the unchanged tree); "
     "tabulated ranges 2*dT/Tn; critical temperature 1e-6",
     "a run that raises in scaled units where the reference run succeeds is a violation (reported with the stage that raised)",
-    "out-of-equilibrium particles excluded (collision files are LFS pointers)",
+    "out-of-equilibrium particles: the shipped collision files are LFS pointers; the '+top' cases use one fermion with m^2 = yt^2 phi_0^2/2 (scaled with the units) and the synthetic relaxation collision operator of C01/offeq; Boltzmann fields compared at the wall-shape tolerance (5e-3 of their largest entry)",
     "models are chosen so that both phases exist with a margin over [0.8 Tn, 1.2 T(vJ)] as the property's quantifier demands: a one-field model whose symmetric phase merges continuously into the broken one inside that range (T0 > 0.8 Tn) is inadmissible (the tracer may legitimately stop at, or follow through, the continuous bifurcation)",
 ]
 
@@ -34,7 +34,7 @@ def _rel(a, b):
 def case_pair(c: dict) -> dict:
     r = Rel(c["id"])
     s = c["s"]
-    spec = dict(base=c["base"], Tn=c["Tn"], settings=c["settings"], M=c["M"])
+    spec = dict(base=c["base"], Tn=c["Tn"], settings=c["settings"], M=c["M"], offeq=c.get("offeq"))
     ref = pipeline({**spec, "s": 1.0})
     if ref.get("error") or ref["stage"] != "done":
         return r.result(inadmissible=f"reference run failed at stage {ref['stage']}: {ref.get('error')}")
@@ -97,7 +97,30 @@ def case_pair(c: dict) -> dict:
         r.close("fieldProfiles/s", got["fieldProfiles"] / s, ref["fieldProfiles"], wtol * scale_f)
         r.close("temperatureProfile/s", got["temperatureProfile"] / s / ref["temperatureProfile"], 1.0, 1e-4 + 0.2 * ref["errTol"])
         r.close("velocityProfile", got["velocityProfile"], ref["velocityProfile"], 1e-4 + 2 * ref["errTol"])
+        if c.get("offeq"):
+            offeq_relations(r, got, ref, s)
     return r.result(nontrivial=got.get("stage") == "done")
+
+
+# Out-of-equilibrium fields of the result. deltaF, the truncation error and the linearisation criteria are dimensionless,
+# Delta00 ~ T^2, Delta02/20/11 ~ T^4. Spread between unit systems measured on the unchanged tree: 4e-5 of the largest entry ( it is the wall-shape spread of the pressure iteration seen through the Boltzmann
+# equation - the stopping rule of that iteration gives no sharper a-priori bound). The Boltzmann solution is linear in the
+# source, i.e. in the wall shape, so it inherits the wall-shape tolerance used above (5e-3).
+OFFEQ_TOL = 5e-3
+DELTA_POWER = {"Delta00": 2, "Delta02": 4, "Delta20": 4, "Delta11": 4}
+
+
+def offeq_relations(r: Rel, got: dict, ref: dict, s: float) -> None:
+    r.true("offeq:result-says-out-of-equilibrium-included", got.get("hasOffEq") is True and ref.get("hasOffEq") is True)
+    r.tag("offeq-pair")
+    r.close("offeq:deltaF", got["deltaF"], ref["deltaF"], OFFEQ_TOL * np.max(np.abs(ref["deltaF"])))
+    for k, p in DELTA_POWER.items():
+        r.close(f"offeq:{k}/s^{p}", got[k] / s**p, ref[k], OFFEQ_TOL * np.max(np.abs(ref[k])))
+    r.close("offeq:truncationError", got["truncationError"] / ref["truncationError"], 1.0, OFFEQ_TOL)
+    r.close("offeq:linearizationCriterion1", got["lin1"] / ref["lin1"], 1.0, OFFEQ_TOL)
+    r.close("offeq:linearizationCriterion2", got["lin2"] / ref["lin2"], 1.0, OFFEQ_TOL)
+    if ref.get("vwLTEres") is not None and got.get("vwLTEres") is not None:
+        r.close("offeq:wallVelocityLTE-in-result", got["vwLTEres"], ref["vwLTEres"], 2e-4)
 
 
 def cases(tier):
@@ -110,6 +133,17 @@ def cases(tier):
         for settings in ("default", "tight"):
             for s in scales:
                 out.append(dict(base=base, Tn=Tn, settings=settings, s=s, M=20, id=f"{base},Tn={Tn:g},settings={settings},s={s:g}"))
+    # the same pairs WITH an out-of-equilibrium particle (mass ~ field 0, transformed with the units) and the synthetic relaxation
+    # collision operator of C01/offeq (stored in either basis, stored N = grid N or larger): Boltzmann-coupled path of the solver
+    oq = [("xsm2", 100.0, "default", 1e-2, 0.5, "Cardinal", 0), ("xsm2", 100.0, "default", 1e2, 2.0, "Chebyshev", 2)]
+    if tier == "thorough":
+        oq += [("xsm2", 100.0, "tight", 1e-1, 0.5, "Chebyshev", 0), ("xsm2", 100.0, "default", 10.0, 0.1, "Cardinal", 4),
+               ("xsm2", 95.0, "default", 1e-2, 2.0, "Cardinal", 2), ("xsm2", 95.0, "default", 1e2, 0.5, "Chebyshev", 0),
+               ("cubicD", 100.0, "default", 1e-2, 0.5, "Cardinal", 0), ("cubicD", 100.0, "default", 1e2, 2.0, "Chebyshev", 2),
+               ("xsm2", 100.0, "default", 3e1, 0.5, "Cardinal", 0), ("xsm2", 100.0, "default", 3e-2, 2.0, "Chebyshev", 2)]
+    for base, Tn, settings, s, kappa, basis, dN in oq:
+        out.append(dict(base=base, Tn=Tn, settings=settings, s=s, M=20, offeq=dict(kappa=kappa, basis=basis, dN=dN),
+                        id=f"{base}+top,Tn={Tn:g},settings={settings},s={s:g},kappa={kappa:g},stored={basis}/N+{dN}"))
     return out
 
 
